@@ -14,23 +14,24 @@ Variable dnew : dstate.
 Variable ddecode : dstate -> bytes -> nat -> bool -> bool * nat * bytes * dstate.
 Variable valid_up_to : bytes -> nat.
 
-(* specification side: incremental whole-buffer decoding *)
-Variable Wpart : bytes -> bytes * bytes.   (* decoded text of the complete characters / malformed sequences, undecided tail *)
-Variable Wfin : bytes -> bytes.            (* what an undecided tail becomes at the end of the input (U+FFFD or nothing) *)
-Variable pend : dstate -> bytes.           (* the bytes a decoder has consumed but not yet turned into text *)
-Definition W (x : bytes) : bytes := let (o, t) := Wpart x in o ++ Wfin t.
+(* specification side: the decoder is a deterministic transducer over bytes *)
+Variable A : Type.                          (* abstract decoder state *)
+Variable a0 : A.                            (* a fresh decoder *)
+Variable run : A -> bytes -> bytes * A.     (* text produced for these bytes, state afterwards *)
+Variable fin_of : A -> bytes.                  (* what an unfinished sequence becomes at the end of the input (U+FFFD or nothing) *)
+Variable abs : dstate -> A.                 (* the state a concrete decoder is in *)
+Definition W (x : bytes) : bytes := let (o, a) := run a0 x in o ++ fin_of a.     (* whole-buffer decode *)
 
-Hypothesis W_nil : Wpart [] = ([], []).
-Hypothesis W_app : forall a b, Wpart (a ++ b) = let (o1, t1) := Wpart a in let (o2, t2) := Wpart (t1 ++ b) in (o1 ++ o2, t2).
-Hypothesis W_tail : forall x, Wpart (snd (Wpart x)) = ([], snd (Wpart x)).
-Hypothesis pend_new : pend dnew = [].
-Hypothesis decode_law : forall st inp cap last fin read out st',
-  ddecode st inp cap last = (fin, read, out, st') ->
-  read <= length inp /\ (fin = true -> read = length inp) /\ (fin = false -> 0 < read) /\
-  (let (o, t) := Wpart (pend st ++ firstn read inp) in
-   if last && fin then out = o ++ Wfin t else (out = o /\ pend st' = t)).
+Hypothesis run_nil : forall a, run a [] = ([], a).
+Hypothesis run_app : forall a x y, run a (x ++ y) = let (o1, a1) := run a x in let (o2, a2) := run a1 y in (o1 ++ o2, a2).
+Hypothesis abs_new : abs dnew = a0.
+Hypothesis decode_law : forall st inp last fin' read out st',
+  ddecode st inp BUF last = (fin', read, out, st') ->
+  read <= length inp /\ (fin' = true -> read = length inp) /\ (fin' = false -> 0 < read) /\
+  (let (o, a') := run (abs st) (firstn read inp) in
+   if last && fin' then out = o ++ fin_of a' else (out = o /\ abs st' = a')).
 Hypothesis fast_path_law : forall raw, valid_up_to raw <= length raw /\
-  Wpart (firstn (valid_up_to raw) raw) = (firstn (valid_up_to raw) raw, []).
+  run a0 (firstn (valid_up_to raw) raw) = (firstn (valid_up_to raw) raw, a0).
 
 Notation feed := (feed_text dstate dnew ddecode valid_up_to).
 Notation flush := (flush_pending dstate dnew ddecode valid_up_to).
@@ -50,27 +51,27 @@ Proof. unfold texts. rewrite map_app, concat_app. cbn. rewrite app_nil_r. reflex
 
 (* the state between two lexemes of a node whose bytes so far are Y *)
 Definition Mid (start : nat) (t : td dstate) (cs : list tchunk) (Y : bytes) : Prop :=
-  exists st, td_pending t = Some st /\ texts cs = fst (Wpart Y) /\ pend st = snd (Wpart Y) /\
+  exists st, td_pending t = Some st /\ texts cs = fst (run a0 Y) /\ abs st = snd (run a0 Y) /\
              tiles cs start (td_start t) /\ td_start t <= td_end t /\ td_end t = start + length Y /\ none_last cs.
 
-Lemma Wpart_step Y st x o t : pend st = snd (Wpart Y) -> Wpart (pend st ++ x) = (o, t) -> Wpart (Y ++ x) = (fst (Wpart Y) ++ o, t).
-Proof. intros Hp Hx. rewrite W_app. destruct (Wpart Y) as [o1 t1]. cbn in *. rewrite <- Hp, Hx. reflexivity. Qed.
+Lemma Wpart_step Y st x o a' : abs st = snd (run a0 Y) -> run (abs st) x = (o, a') -> run a0 (Y ++ x) = (fst (run a0 Y) ++ o, a').
+Proof. intros Hp Hx. rewrite run_app. destruct (run a0 Y) as [o1 a1]. cbn in *. rewrite <- Hp, Hx. reflexivity. Qed.
 
 (* the decode loop, not the last call *)
 Lemma loop_mid start : forall fuel dec raw pos next acc Y,
   length raw < fuel ->
-  texts acc = fst (Wpart Y) -> pend dec = snd (Wpart Y) -> tiles acc start next -> next <= pos -> pos = start + length Y -> none_last acc ->
+  texts acc = fst (run a0 Y) -> abs dec = snd (run a0 Y) -> tiles acc start next -> next <= pos -> pos = start + length Y -> none_last acc ->
   let (t', acc') := loop fuel dec raw pos next false acc in Mid start t' acc' (Y ++ raw).
 Proof.
   induction fuel as [|f IH]; intros dec raw pos next acc Y Hf Ht Hp Hti Hn Hpos Hnl; [lia|].
   cbn [td_loop]. destruct (ddecode dec raw BUF false) as [[[fin read] out] dec'] eqn:Ed.
-  destruct (decode_law _ _ _ _ _ _ _ _ Ed) as [Hr [Hfin [Hprog Hout]]].
-  destruct (Wpart (pend dec ++ firstn read raw)) as [o t] eqn:Ew. cbn [andb] in Hout. destruct Hout as [-> Hp'].
+  destruct (decode_law _ _ _ _ _ _ _ Ed) as [Hr [Hfin [Hprog Hout]]].
+  destruct (run (abs dec) (firstn read raw)) as [o t] eqn:Ew. cbn [andb] in Hout. destruct Hout as [-> Hp'].
   pose proof (Wpart_step Y dec _ _ _ Hp Ew) as Hstep.
   set (emit := negb (length o =? 0) || false).
   assert (Hacc : let acc' := if emit then acc ++ [mkTC o (false && fin) next (pos + read)] else acc in
                  let next' := if emit then pos + read else next in
-                 texts acc' = fst (Wpart (Y ++ firstn read raw)) /\ tiles acc' start next' /\ next' <= pos + read /\ none_last acc').
+                 texts acc' = fst (run a0 (Y ++ firstn read raw)) /\ tiles acc' start next' /\ next' <= pos + read /\ none_last acc').
   { rewrite Hstep. cbn [fst]. destruct emit eqn:Ee; cbn zeta.
     - rewrite texts_snoc, Ht. cbn. split; [reflexivity|]. split; [apply (tiles_snoc acc start next); cbn; auto; lia|]. split; [lia|].
       apply Forall_app. split; [exact Hnl | constructor; [reflexivity | constructor]].
@@ -100,17 +101,17 @@ Proof.
     pose proof (loop_mid start (S (length (@nil N))) dnew [] (start + length raw) (start + length raw) [mkTC raw false start (start + length raw)] raw) as H.
     rewrite app_nil_r in H. apply H; cbn; auto; try lia.
     + unfold texts. cbn. rewrite Hw, app_nil_r. reflexivity.
-    + rewrite Hw. exact pend_new.
+    + rewrite Hw. exact abs_new.
     + constructor; [reflexivity | constructor].
   - destruct (valid_up_to raw <? BUF).
     + pose proof (loop_mid start (S (length raw)) dnew raw start start [] []) as H. cbn [app] in H.
-      apply H; rewrite ?W_nil; cbn; auto; try lia; try exact pend_new; constructor.
+      apply H; rewrite ?run_nil; cbn; auto; try lia; try exact abs_new; constructor.
     + set (v := valid_up_to raw) in *.
       pose proof (loop_mid start (S (length (skipn v raw))) dnew (skipn v raw) (start + length (firstn v raw)) (start + length (firstn v raw))
                            [mkTC (firstn v raw) false start (start + length (firstn v raw))] (firstn v raw)) as H.
       rewrite firstn_skipn in H. apply H; cbn; auto; try lia.
       * unfold texts. cbn. rewrite Hw, app_nil_r. reflexivity.
-      * rewrite Hw. exact pend_new.
+      * rewrite Hw. exact abs_new.
       * constructor; [reflexivity | constructor].
 Qed.
 Lemma feed_next start t cs Y raw : Mid start t cs Y ->
@@ -152,14 +153,14 @@ Lemma flush_mid start t cs Y : Mid start t cs Y ->
 Proof.
   intros [st [Hp [Ht [Hpe [Hti [Hle [He Hnl]]]]]]].
   unfold flush_pending. rewrite Hp. unfold feed_text, split_utf8_start. rewrite Hp. cbn [length td_loop].
-  destruct (ddecode st [] BUF true) as [[[fin read] out] dec'] eqn:Ed.
-  destruct (decode_law _ _ _ _ _ _ _ _ Ed) as [Hr [Hfin [Hprog Hout]]]. cbn [length] in Hr.
+  destruct (ddecode st [] BUF true) as [[[fin' read] out] dec'] eqn:Ed.
+  destruct (decode_law _ _ _ _ _ _ _ Ed) as [Hr [Hfin [Hprog Hout]]]. cbn [length] in Hr.
   assert (read = 0) by lia. subst read.
-  destruct fin; [|specialize (Hprog eq_refl); lia].
-  cbn [firstn] in Hout. rewrite app_nil_r, Hpe, W_tail in Hout. cbn [andb] in Hout. cbn [app] in Hout.
+  destruct fin'; [|specialize (Hprog eq_refl); lia].
+  cbn [firstn] in Hout. rewrite run_nil in Hout. cbn [andb app] in Hout. rewrite Hpe in Hout.
   rewrite orb_true_r. cbn [andb app]. rewrite Nat.add_0_r.
   split; [|split].
-  - rewrite texts_snoc, Ht. cbn [tc_text]. rewrite Hout. unfold W. destruct (Wpart Y); reflexivity.
+  - rewrite texts_snoc, Ht. cbn [tc_text]. rewrite Hout. unfold W. destruct (run a0 Y); reflexivity.
   - rewrite <- He. apply (tiles_snoc cs start (td_start t) {| tc_text := out; tc_last := true; tc_a := td_start t; tc_b := td_end t |}); cbn; auto.
   - eexists. split; reflexivity.
 Qed.
@@ -176,42 +177,42 @@ Proof.
   pose proof (feed_all_mid start pieces t1 c1 p H1) as H2.
   destruct (feed_all dstate dnew ddecode valid_up_to t1 pieces (start + length p)) as [t2 c2].
   pose proof (flush_mid start t2 (c1 ++ c2) (p ++ concat pieces) H2) as H3.
-  destruct (flush t2) as [t3 c3]. destruct H3 as [A [B [c [-> Hc]]]].
-  split; [exact A|]. split; [exact B|].
+  destruct (flush t2) as [t3 c3]. destruct H3 as [HA [HB [c [-> Hc]]]].
+  split; [exact HA|]. split; [exact HB|].
   exists (c1 ++ c2), c. split; [reflexivity|]. split; [|exact Hc].
   destruct H2 as [st [_ [_ [_ [_ [_ [_ Hnl]]]]]]]. exact Hnl.
 Qed.
 End Laws.
 
 (* the assumed behaviour of a streaming decoder, bundled *)
-Record decoder_laws {dstate : Type} (dnew : dstate) (ddecode : dstate -> bytes -> nat -> bool -> bool * nat * bytes * dstate)
-       (valid_up_to : bytes -> nat) (Wpart : bytes -> bytes * bytes) (Wfin : bytes -> bytes) (pend : dstate -> bytes) : Prop := {
-  dl_nil : Wpart [] = ([], []);
-  dl_app : forall a b, Wpart (a ++ b) = let (o1, t1) := Wpart a in let (o2, t2) := Wpart (t1 ++ b) in (o1 ++ o2, t2);
-  dl_tail : forall x, Wpart (snd (Wpart x)) = ([], snd (Wpart x));
-  dl_new : pend dnew = [];
-  dl_decode : forall st inp cap last fin read out st',
-    ddecode st inp cap last = (fin, read, out, st') ->
-    read <= length inp /\ (fin = true -> read = length inp) /\ (fin = false -> 0 < read) /\
-    (let (o, t) := Wpart (pend st ++ firstn read inp) in
-     if last && fin then out = o ++ Wfin t else (out = o /\ pend st' = t));
-  dl_fast : forall raw, valid_up_to raw <= length raw /\ Wpart (firstn (valid_up_to raw) raw) = (firstn (valid_up_to raw) raw, [])
+Record decoder_laws {dstate A : Type} (dnew : dstate) (ddecode : dstate -> bytes -> nat -> bool -> bool * nat * bytes * dstate)
+       (valid_up_to : bytes -> nat) (a0 : A) (run : A -> bytes -> bytes * A) (fin : A -> bytes) (abs : dstate -> A) : Prop := {
+  dl_nil : forall a, run a [] = ([], a);
+  dl_app : forall a x y, run a (x ++ y) = let (o1, a1) := run a x in let (o2, a2) := run a1 y in (o1 ++ o2, a2);
+  dl_new : abs dnew = a0;
+  dl_decode : forall st inp last fin' read out st',
+    ddecode st inp BUF last = (fin', read, out, st') ->
+    read <= length inp /\ (fin' = true -> read = length inp) /\ (fin' = false -> 0 < read) /\
+    (let (o, a') := run (abs st) (firstn read inp) in
+     if last && fin' then out = o ++ fin a' else (out = o /\ abs st' = a'));
+  dl_fast : forall raw, valid_up_to raw <= length raw /\ run a0 (firstn (valid_up_to raw) raw) = (firstn (valid_up_to raw) raw, a0)
 }.
-Theorem text_node_correct {dstate} dnew ddecode valid_up_to Wpart Wfin pend :
-  @decoder_laws dstate dnew ddecode valid_up_to Wpart Wfin pend ->
+Theorem text_node_correct {dstate A} dnew ddecode valid_up_to (a0 : A) run fin abs :
+  @decoder_laws dstate A dnew ddecode valid_up_to a0 run fin abs ->
   forall start p pieces,
   let cs := text_node dstate dnew ddecode valid_up_to (p :: pieces) start in
-  texts cs = W Wpart Wfin (concat (p :: pieces))
+  texts cs = W A a0 run fin (concat (p :: pieces))
   /\ tiles cs start (start + length (concat (p :: pieces)))
   /\ exists body final, cs = body ++ [final] /\ none_last body /\ tc_last final = true.
-Proof. intros [L1 L2 L3 L4 L5 L6]. exact (text_node_is_whole_buffer_decode dstate dnew ddecode valid_up_to Wpart Wfin pend L1 L2 L3 L4 L5 L6). Qed.
+Proof. intros [L1 L2 L3 L4 L5]. exact (text_node_is_whole_buffer_decode dstate dnew ddecode valid_up_to A a0 run fin abs L1 L2 L3 L4 L5). Qed.
 
-(* the laws are satisfiable: the identity codec on ASCII (stateless, never leaves a tail) *)
+(* the laws are satisfiable: the identity codec on ASCII (stateless) *)
 Lemma identity_decoder_laws :
-  @decoder_laws unit tt (fun _ inp _ _ => (true, length inp, inp, tt)) (fun raw => length raw) (fun x => (x, [])) (fun _ => []) (fun _ => []).
+  @decoder_laws unit unit tt (fun _ inp _ _ => (true, length inp, inp, tt)) (fun raw => length raw) tt (fun _ x => (x, tt)) (fun _ => []) (fun _ => tt).
 Proof.
   constructor; try reflexivity.
-  - intros st inp cap last fin read out st' E. inversion E; subst. rewrite firstn_all. cbn.
+  - intros []. reflexivity.
+  - intros st inp last fin' read out st' E. inversion E; subst. rewrite firstn_all. cbn.
     split; [lia|]. split; [reflexivity|]. split; [discriminate|]. rewrite andb_true_r. destruct last; [rewrite app_nil_r|]; auto.
   - intros raw. rewrite firstn_all. split; [lia | reflexivity].
 Qed.
